@@ -157,7 +157,14 @@ def quiet():
         sys.stderr, sys.stdout = old_err, old_out
 
 
-def run_op(spec, heap, rng_seed=None, cb=None, fault_ctx=None, keep=None):
+def rng_state_digest():
+    import numpy as np
+
+    st = np.random.get_state()
+    return digest([st[0], bytes(memoryview(st[1])).hex(), int(st[2]), int(st[3]), float(st[4]), repr(random.getstate())])
+
+
+def run_op(spec, heap, rng_seed=None, cb=None, fault_ctx=None, keep=None, reseed=True, info=None):
     """Execute one template and return its canonical outcome; the raw value is appended to ``keep``."""
     import warnings
 
@@ -170,9 +177,10 @@ def run_op(spec, heap, rng_seed=None, cb=None, fault_ctx=None, keep=None):
     heap.begin_op()
     if spec.cb is not None and cb is None:
         cb = spec.cb
-    if spec.rand:
+    if spec.rand and reseed:
         np.random.seed(rng_seed)
         random.seed(rng_seed)
+    r0 = rng_state_digest() if info is not None else None
     val = None
     try:
         # (no warnings.catch_warnings() around the call: it would restore the process-wide warning filters afterwards and so
@@ -191,6 +199,9 @@ def run_op(spec, heap, rng_seed=None, cb=None, fault_ctx=None, keep=None):
         out = ["raise", type(e).__name__]
     finally:
         sys.settrace(None)
+    if info is not None:
+        # did the call leave NumPy's and Python's global generators exactly as it found them (after the seeding, if any)?
+        info["rng_neutral"] = rng_state_digest() == r0
     if out[0] == "value":
         try:
             with warnings.catch_warnings(), quiet():
@@ -474,6 +485,21 @@ def generate(seed, tier, index=0, batch_seed=None):
                     out.append(vo)
                 continue
         out.append(o)
+    # "seed; deterministic call; randomised call": see execute()
+    randomised = [n for n in names if ops[n].rand and not ops[n].slow]
+    if rng.random() < 0.3 and randomised:
+        dets = [i for i, o in enumerate(out) if o["op"] != "@mutate" and not ops[o["op"]].rand and not o.get("fault")]
+        if dets:
+            i = rng.choice(dets)
+            out.insert(i + 1, {"op": rng.choice(randomised), "rng_seed": rng.choice(RAND_SEEDS)})
+    for i in range(1, len(out)):
+        a, b = out[i - 1], out[i]
+        if b.get("rng_seed") is None or b.get("fault") or a["op"] == "@mutate" or a.get("fault") or rng.random() < 0.5:
+            continue
+        if ops[a["op"]].rand:
+            # a randomised template may draw nothing on its path (downsample with a non-binding maxseqs): same seed, decided at run time
+            b["rng_seed"] = a["rng_seed"]
+        b["early_seed"] = True
     return {"property": PROP, "seed": seed, "tier": tier, "swarm": sw, "ops": out, "sched": sched}
 
 
@@ -500,6 +526,8 @@ def execute(trace, ctx=None):
     dynamic = trace.get("dynamic", True)
     triggers = 0
     lib_state = {}
+    preseeded_for = None
+    rng_probes = 0
     step = -1
     while step + 1 < len(ops_list) and len(ops_list) <= 40:
         step += 1
@@ -577,7 +605,32 @@ def execute(trace, ctx=None):
         if spec.cb is not None and cb is None:
             cb = spec.cb
         raw = []
-        out = run_op(spec, heap, op.get("rng_seed"), cb=cb, fault_ctx=fctx, keep=raw)
+        # "seed, deterministic call, randomised call": the caller seeds the generators BEFORE a deterministic call that leaves them
+        # alone in its pristine execution; the randomised call after it is then not reseeded and must still equal its pristine
+        # execution under that seed (a deterministic call that starts drawing from - or reseeding - the global generator changes it)
+        nxt = ops_list[step + 1] if step + 1 < len(ops_list) else None
+        use_preseed = bool(spec.rand and op.get("early_seed") and preseeded_for == step)
+        if (nxt is not None and nxt.get("early_seed") and nxt.get("rng_seed") is not None and not fault and not use_preseed
+                and (ref.get("rng_neutral") or not spec.rand) and "@" not in key
+                and (not spec.rand or op.get("rng_seed") == nxt["rng_seed"])):
+            # eligible: a template declared deterministic (on the unchanged tree every one of them leaves the generators alone in its
+            # pristine execution - checked over the whole table) or a randomised one that drew nothing in its pristine execution
+            if not spec.rand:  # (a randomised template that draws nothing is seeded by run_op itself, with the same seed)
+                import numpy as _np
+
+                _np.random.seed(nxt["rng_seed"])
+                random.seed(nxt["rng_seed"])
+            preseeded_for = step + 1
+            stats["early_seed_pairs"] += 1
+        info = {}
+        out = run_op(spec, heap, op.get("rng_seed"), cb=cb, fault_ctx=fctx, keep=raw, reseed=not use_preseed, info=info)
+        if use_preseed:
+            stats["early_seed_randomised_ops_judged"] += 1
+        rng_touched = (bool(ref.get("rng_neutral")) or not spec.rand) and not info.get("rng_neutral", True) and not fault and "@" not in key
+        if use_preseed:
+            preseed_note = " (not reseeded: the caller seeded the generators before the preceding call %s, which is deterministic or drew nothing when run alone)" % (done[-1] if done else "?")
+        else:
+            preseed_note = ""
         CTL.fork_fail_at = None
         if fault:
             kind = fault["kind"]
@@ -622,7 +675,7 @@ def execute(trace, ctx=None):
                 d = close(out[1], ref["outcome"][1])
                 if d:
                     violation = {"oracle": "history_dependent", "op": name, "step": step,
-                                 "detail": "%s after %r differs from its pristine execution at %s" % (key, done[:-1][-4:], d)}
+                                 "detail": "%s after %r differs from its pristine execution at %s%s" % (key, done[:-1][-4:], d, preseed_note)}
         elif out[0] == "value" or out[0] == "raise":
             pass  # a fired fault that the call absorbed: its own outcome is not judged
         # oracle 3: a value returned earlier is the caller's from then on; a later call must not change it
@@ -655,6 +708,22 @@ def execute(trace, ctx=None):
         fns0, globs0 = fns1, globs1
         if violation:
             break
+        if rng_touched:
+            # the template left the global generators alone in its pristine execution and drew from (or reseeded) them here:
+            # no violation by itself - show what it does to a caller: seed; this call again; a randomised call (not reseeded)
+            diag_globals.add("env.global_random_generators")
+            stats["rng_touched_by_neutral_template"] += 1
+            if dynamic and not op.get("probe") and rng_probes < 2:
+                rng_probes += 1
+                sd = op.get("rng_seed") if spec.rand else RAND_SEEDS[0]
+                again = {"op": name, "probe": True}
+                if spec.rand:
+                    again["rng_seed"] = sd
+                cheap = sorted(n for n in ops if "~" not in n and ops[n].rand and not ops[n].slow and ops[n].group in ("subsample", "downsample", "powerlaw"))
+                victim = {"op": cheap[step % len(cheap)], "rng_seed": sd, "early_seed": True, "probe": True}
+                if op_key(victim) in table:
+                    ops_list[step + 1:step + 1] = [again, victim]
+                    stats["directed_probes_inserted"] += 2
         # directed search (DESIGN 3.4, oracle 3): a state change is no violation, but it says where to look next
         # the kdtree parameter block is rewritten by every kdtree call (the expected benign case): follow it up one time in three
         if changed and all(n == "pyrepseq.nn._cal_params" for _, n in changed):
@@ -793,8 +862,9 @@ def pristine_outcome(name, rng_seed, mutated=None, traced=False):
     lines = set()
     counter = LineInterrupt(None, record=lines, max_count=30000)  # (interrupts land within the first 30000 line events)
     h = Heap(premutate=pre)
-    out = run_op(spec, h, rng_seed, cb=spec.cb, fault_ctx=counter)
-    return {"outcome": out, "N": counter.count, "lines": sorted(lines), "heap": sorted(h.touched)}
+    info = {}
+    out = run_op(spec, h, rng_seed, cb=spec.cb, fault_ctx=counter, info=info)
+    return {"outcome": out, "N": counter.count, "lines": sorted(lines), "heap": sorted(h.touched), "rng_neutral": bool(info.get("rng_neutral"))}
 
 
 RAND_TEMPLATES = {"quick": 360, "thorough": 2400}
@@ -943,6 +1013,12 @@ def prepare(farm, batch_seed, tier, cfg, harness_errors):
     PREP_INFO["random_argument_templates"] = {"bases": len(_cat().RANDOPS), "drawn_for_this_batch_seed": len(rand_names(batch_seed, tier))}
     table.update(build_table(farm, variant_keys(targets, table), harness_errors))
     PREP_INFO["caller_mutation_targets"] = targets
+    ops_ = _cat().OPS
+    touching = sorted(k for k, v in table.items() if "@" not in k and not ops_[k.split("#")[0]].rand and not v.get("rng_neutral", True))
+    # on the unchanged tree: none (every template declared deterministic leaves NumPy's and Python's global generators alone)
+    PREP_INFO["deterministic_templates_that_touch_the_global_generators"] = touching[:20]
+    PREP_INFO["randomised_templates_that_draw_nothing_alone"] = sum(
+        1 for k, v in table.items() if "@" not in k and ops_[k.split("#")[0]].rand and v.get("rng_neutral"))
     covered = set()
     for v in table.values():
         for fl in v.pop("lines", []):
